@@ -65,7 +65,11 @@ THEOREM = {
 }
 # theorems that are weaker than extensional equality (say so in the obligation)
 PARTIAL = {'matches': 'hand model compares exactly, the code with np.allclose: only `exact match => code match` and the '
-                      'order/periodicity refusal are proved'}
+                      'order/periodicity refusal are proved',
+           'insert_knot': 'the equality theorem covers every basis outside the cover branch (non-periodic, or periodic with '
+                          'at least p+k functions); the recursive cover branch (periodic, n < p+k) is translated (fuel '
+                          'recursion) and elaborated, its agreement with the hand model is checked by the C04 correspondence '
+                          'run only'}
 # corollaries audited together with the main theorems
 EXTRA_THEOREMS = ('PyBasis_insert_knot_eq_sorted', 'PyBasis_init_eq_full')
 # translated for completeness, no hand model to compare with: obligation = translates and elaborates
